@@ -56,8 +56,10 @@ def leaf_data(leaf):
 
 
 def gen_shape(D_, max_rank=3, max_len=6, min_rank=0):
-    rank = D_.weighted([(r, w) for r, w in [(0, 1), (1, 5), (2, 8), (3, 5), (4, 1)] if min_rank <= r <= max_rank])
+    rank = D_.weighted([(r, w) for r, w in [(0, 1), (1, 5), (2, 8), (3, 5), (4, 3)] if min_rank <= r <= max_rank])
     out = []
+    if rank >= 4:
+        max_len = min(max_len, 4)  # keep 4-d leaves small
     for _ in range(rank):
         out.append(D_.weighted([(0, 1), (1, 2), (2, 2), (3, 3), (4, 3), (5, 3), (6, 2), (7, 2), (8, 1)] if max_len >= 8 else [(n, (1 if n == 0 else 2 if n == 1 else 3)) for n in range(0, max_len + 1)]))
     return tuple(out)
@@ -1208,7 +1210,7 @@ def has_zero_axis(prog):
 # generation
 
 
-def program_strategy(min_stmts=1, max_stmts=6, max_leaves=2, family_weights=None, op_filter=None, leaf_kinds=("numpy",), max_rank=3, max_len=8, dtypes=None, n_outputs=(1, 2), max_size=400, first_ops=None, ensure_ops=None):
+def program_strategy(min_stmts=1, max_stmts=6, max_leaves=2, family_weights=None, op_filter=None, leaf_kinds=("numpy",), max_rank=4, max_len=8, dtypes=None, n_outputs=(1, 2), max_size=400, first_ops=None, ensure_ops=None):
     """Hypothesis strategy yielding (program, stats) with stats = {"discarded": n}."""
     fw = dict(FAMILY_WEIGHTS if family_weights is None else family_weights)
     fams = {f: [n for n in names if op_filter is None or op_filter(n)] for f, names in ops_by_family().items()}
